@@ -29,8 +29,8 @@ def floor(tier):
 def cases(tier, rng):
     out = []
     k = 0
-    nN = 3 if tier == "quick" else 12
-    nz = 12 if tier == "quick" else 60
+    nN = 3 if tier == "quick" else 40
+    nz = 12 if tier == "quick" else 200
     for nf in (3, 4, 5, 6):
         for fact, targets in (
             ("adler", [("f2_cc", "NonSingletOdd")]),
